@@ -101,7 +101,10 @@ impl When {
     }
 }
 
-const JOIN_LIMIT: Duration = Duration::from_millis(1500);
+/// a task system that has not joined by then is reported as hung (the supervisor's stop timeout is 5 s)
+const JOIN_LIMIT: Duration = Duration::from_millis(4000);
+/// bound asserted on the measured shutdown time (kept well above scheduling noise of a loaded machine)
+const FAST_MS: u128 = 3000;
 
 /// the three io services of glonaxd's `run()` as stubs + `nets` stub networks
 fn sched_scenario(out: &mut Out, multi: bool, nets: usize, when: When, burst: bool) {
@@ -172,7 +175,7 @@ fn sched_scenario(out: &mut Out, multi: bool, nets: usize, when: When, burst: bo
     rt.shutdown_background();
     out.case(
         &format!("sched {} {} {}{}", if multi { "mt" } else { "ct" }, nets, when.tok(), if burst { " burst" } else { "" }),
-        &format!("j={} q={} fast={} {}", joined as u8, quiet as u8, (ms < 1000 || !joined) as u8, per.join(" ")),
+        &format!("j={} q={} fast={} {}", joined as u8, quiet as u8, (ms < FAST_MS || !joined) as u8, per.join(" ")),
         true,
     );
     out.count(&format!("request at {}", match when { When::Point(p, _) => p, When::After(_) => "after scheduling", When::Sigterm(_) => "after scheduling (SIGTERM)" }));
@@ -267,7 +270,7 @@ fn bus_scenario(out: &mut Out, multi: bool, cfgs: &[NetCfg], when: When, burst: 
     let frames: Vec<String> = during.iter().map(|f| if f.is_empty() { "-".to_string() } else { f.join(",") }).collect();
     out.case(
         &format!("bus {} {} {}{}", if multi { "mt" } else { "ct" }, cfg_tok.join("|"), when.tok(), if burst { " burst" } else { "" }),
-        &format!("j={} after={} fast={} {}", joined as u8, after_n, (ms < 1000 || !joined) as u8, frames.join(" ")),
+        &format!("j={} after={} fast={} {}", joined as u8, after_n, (ms < FAST_MS || !joined) as u8, frames.join(" ")),
         true,
     );
     out.count("real NetworkAuthority under the real Runtime");
@@ -399,7 +402,7 @@ fn e2e_scenario(out: &mut Out, n: usize, offset_ms: u64, clients: usize, inject:
     let frames: Vec<String> = during.iter().map(|f| if f.is_empty() { "-".to_string() } else { f.join(",") }).collect();
     out.case(
         &format!("bus e2e{}c{} {} sigterm {}{}", if up { "" } else { "-notup" }, clients, cfg_tok.join("|"), offset_ms, if inject { " burst" } else { "" }),
-        &format!("j={} after={} fast={} {}", (exit == "0") as u8, after_n, (ms < 1000) as u8, frames.join(" ")),
+        &format!("j={} after={} fast={} {}", (exit == "0") as u8, after_n, (ms < FAST_MS) as u8, frames.join(" ")),
         true,
     );
     out.count(&format!("real glonaxd under SIGTERM: exit {}", exit));
@@ -408,7 +411,7 @@ fn e2e_scenario(out: &mut Out, n: usize, offset_ms: u64, clients: usize, inject:
 
 pub fn run(out: &mut Out, tier: &str, rng: &mut Rng) {
     let thorough = tier == "thorough";
-    out.rule = "real glonax::Runtime: the three io services of glonaxd's run() and 0..3 networks as recording stubs, the termination request delivered at EVERY scheduling point of every schedule call (hook verif_sched: enter / guard / spawn / spawn2 / spawn3 x call index), after scheduling (0..40 ms later, idle or in a 40-command burst) directly and through a real SIGTERM handled by register_shutdown_signal, on current-thread and multi-thread tokio runtimes; observed: setup / teardown calls per service, whether wait_for_tasks returns within 1.5 s, silence afterwards. Then the real NetworkAuthority (1-2 networks, 0-3 hydraulic units each plus other units) under the real Runtime on emulated buses: frames seen between the request and the join, frames after the join. Then authority-level teardown at any point of its life. Non-trivial = all".into();
+    out.rule = "real glonax::Runtime: the three io services of glonaxd's run() and 0..3 networks as recording stubs, the termination request delivered at EVERY scheduling point of every schedule call (hook verif_sched: enter / guard / spawn / spawn2 / spawn3 x call index), after scheduling (0..40 ms later, idle or in a 40-command burst) directly and through a real SIGTERM handled by register_shutdown_signal, on current-thread and multi-thread tokio runtimes; observed: setup / teardown calls per service, whether wait_for_tasks returns within 4 s, silence afterwards. Then the real NetworkAuthority (1-2 networks, 0-3 hydraulic units each plus other units) under the real Runtime on emulated buses: frames seen between the request and the join, frames after the join. Then authority-level teardown at any point of its life. Non-trivial = all".into();
     // --- A: every scheduling point
     for multi in [false, true] {
         for nets in 0..=(if thorough { 3 } else { 2 }) {
